@@ -154,7 +154,7 @@ def declared_enzyme(S, name, activity):
     e = S.enzyme(name, activity)
     v, num, den = R.parse_concentration(activity)
     v = R.round_conc(v)        # a parsed concentration is kept to the internal precision (significant digits below 1)
-    e._pv_sa = v if (num, den) == ('U', 'g') else 1.0 / v
+    e._pv_sa = float(f"{(v if (num, den) == ('U', 'g') else 1.0 / v):.12g}")      # one activity has one value however it is spelt (twelve digits)
     return e
 
 
